@@ -149,6 +149,8 @@ def run_construct(fs, ts, rounds: int, max_candidates: int | None = None, max_yi
         pass
     except _Alarm:
         why = "alarm"
+    except Exception as e:  # noqa: BLE001   (construct itself raised: judged by check_run)
+        why = f"raised {type(e).__name__}: {e}"[:200]
     finally:
         signal.setitimer(signal.ITIMER_REAL, 0)
         signal.signal(signal.SIGALRM, old)
@@ -344,6 +346,10 @@ def check_run(fs, ts, ys, info, fails, where):
                           "not_False_on_false_set": wrong_f, "error": bad, "run": where})
             return n
     tt = type_test_separating(fs, ts)
+    if tt is not None and str(info.get("stopped_by", "")).startswith("raised"):
+        fails.append({"kind": "construct() raised although a built-in type test separates the sets", "false_set": repr(fs), "true_set": repr(ts), "type_test": tt,
+                      "error": info["stopped_by"], "run": where})
+        return n + 1
     if tt is not None:
         n += 1
         first = ys[0] if ys else None
@@ -408,6 +414,20 @@ def search(payload):
             last = ys[-1]
             samples.append({"false_set": repr(fs), "true_set": repr(ts), "yields_checked": len(ys), "round2_yields": r2,
                             "last": repr(last[2]), "candidates_examined": info["candidates_examined"]})
+    # HISTORY in this one process: a few example pairs asked again and again in changing orders, streams abandoned after 1, 3 or 20 values
+    # (what is remembered from one request must not answer the next), and pairs whose members are == across types (2 / 2.0, 1 / True)
+    hpairs = [(["a", None], [1, 2]), ([1, 2.5], ["x", "y"]), (["a", 2], [0.5, 2.0]), ([None, 7.0, "x"], [7, 3]), ([1, "a"], [True, False]), ([0.0], [0]), ([], [1]), (["b"], [None])]
+    seq = [0, 1, 0, 1, 1, 2, 3, 2, 0, 4, 5, 4, 1, 0, 6, 7, 6, 1, 1, 0]
+    for step, i in enumerate(seq):
+        fs, ts = hpairs[i]
+        cut = (20, 1, 3, None)[step % 4]
+        ys, info = run_construct(list(fs), list(ts), rounds=2, max_yields=cut, seconds=30)
+        total_yields += len(ys)
+        before = len(fails)
+        n += check_run(fs, ts, ys, info, fails, f"rounds 0-1, request {step + 1} of a sequence of {len(seq)} requests in one process (the stream is abandoned after {cut} values)")
+        if len(fails) > before:
+            fails[-1]["history"] = "requests made before in this process: " + "; ".join(f"construct({hpairs[j][0]!r}, {hpairs[j][1]!r})" for j in seq[max(0, step - 4):step])
+            break
     fails.sort(key=lambda f: (f["false_set"] == "[]") + (f["true_set"] == "[]"))     # prefer witnesses with two non-empty sets
     return {"evaluations": n, "failures": fails[:5], "known_hits": [], "set_pairs": len(pairs), "yields_checked": total_yields,
             "round2_yields_checked": r2_yields, "samples": samples}
